@@ -50,3 +50,34 @@ pub open spec fn map_acc_sc_p(old: Map<Service, HashMap<Carrier, f32>>, new: Map
     &&& (forall|s: Service, x: Carrier| visited(rem, n, s) && x != c && old.contains_key(s) && old[s]@.contains_key(x) ==> #[trigger] new[s]@[x] == old[s]@[x])
     &&& (forall|s: Service| old.contains_key(s) && !visited(rem, n, s) ==> #[trigger] new[s] == old[s])
 }
+
+// ---- the accumulation contract of `impl AddAssign<&BalanceCarrier> for Balance`, field group by field group (C04)
+pub open spec fn bal_add_used(o: Balance, f: Balance, r: BalanceCarrier) -> bool {
+    rv(f.used.epus) == rv(o.used.epus) + rv(r.used.epus_an) && rv(f.used.nepus) == rv(o.used.nepus) + rv(r.used.nepus_an)
+    && rv(f.used.cgnus) == rv(o.used.cgnus) + rv(r.used.cgnus_an)
+}
+pub open spec fn bal_add_prod_del_exp(o: Balance, f: Balance, r: BalanceCarrier) -> bool {
+    rv(f.prod.an) == rv(o.prod.an) + rv(r.prod.an)
+    && rv(f.del.an) == rv(o.del.an) + rv(r.del.an) && rv(f.del.onst) == rv(o.del.onst) + rv(r.del.onst_an) && rv(f.del.grid) == rv(o.del.grid) + rv(r.del.grid_an)
+    && rv(f.exp.an) == rv(o.exp.an) + rv(r.exp.an) && rv(f.exp.nepus) == rv(o.exp.nepus) + rv(r.exp.nepus_an) && rv(f.exp.grid) == rv(o.exp.grid) + rv(r.exp.grid_an)
+}
+pub open spec fn bal_add_we(o: Balance, f: Balance, r: BalanceCarrier) -> bool {
+    r3v(f.we.a) == r3a(r3v(o.we.a), r3v(r.we.a)) && r3v(f.we.b) == r3a(r3v(o.we.b), r3v(r.we.b))
+    && r3v(f.we.del) == r3a(r3v(o.we.del), r3v(r.we.del)) && r3v(f.we.exp_a) == r3a(r3v(o.we.exp_a), r3v(r.we.exp_a))
+    && r3v(f.we.exp) == r3a(r3v(o.we.exp), r3v(r.we.exp))
+}
+pub open spec fn bal_add_by_srv(o: Balance, f: Balance, r: BalanceCarrier) -> bool {
+    map_acc(o.used.epus_by_srv@, f.used.epus_by_srv@, r.used.epus_by_srv_an@)
+    && map_acc3(o.we.a_by_srv@, f.we.a_by_srv@, r.we.a_by_srv@, r.used.epus_by_srv_an@)
+    && map_acc3(o.we.b_by_srv@, f.we.b_by_srv@, r.we.b_by_srv@, r.used.epus_by_srv_an@)
+    && map_acc_sc(o.used.epus_by_cr_by_srv@, f.used.epus_by_cr_by_srv@, r.used.epus_by_srv_an@, r.carrier)
+}
+pub open spec fn bal_add_by_src(o: Balance, f: Balance, r: BalanceCarrier) -> bool {
+    map_acc(o.prod.by_src@, f.prod.by_src@, r.prod.by_src_an@) && map_acc(o.prod.epus_by_src@, f.prod.epus_by_src@, r.prod.epus_by_src_an@)
+}
+pub open spec fn bal_add_by_cr(o: Balance, f: Balance, r: BalanceCarrier) -> bool {
+    map_acc1(o.prod.by_cr@, f.prod.by_cr@, r.carrier, rv(r.prod.an), rv(r.prod.an) != 0real)
+    && map_acc1(o.del.grid_by_cr@, f.del.grid_by_cr@, r.carrier, rv(r.del.grid_an), rv(r.del.grid_an) != 0real)
+    && map_acc1(o.used.epus_by_cr@, f.used.epus_by_cr@, r.carrier, rv(r.used.epus_an), rv(r.used.epus_an) != 0real)
+}
+
